@@ -1174,6 +1174,40 @@ func vReplay(ctx context.Context, h vHist, timeout time.Duration) (out vOut) {
 		}
 		r.prevMeta = auth
 	}
+	// ---- closing probe: one more valid create on every key counter (free + each
+	// leaseholder), through node 1. A counter left behind the keys it already handed
+	// out (however the specification's exact key values compare) shows here as a key
+	// that is handed out a second time. A probe that fails is not judged.
+	{
+		step := len(h.Steps) + 1
+		ps := vStep{T: "create", G: 1, Ents: []vEnt{{Name: "zzprobe0", Kind: "free"}}}
+		for k := 1; k <= r.n; k++ {
+			ps.Ents = append(ps.Ents, vEnt{Name: "zzprobe" + strconv.Itoa(k), Kind: "virtual", Lease: k})
+		}
+		ret, _, perr := r.exec(ps)
+		if perr == nil {
+			r.stats["probes"]++
+			if _, err := r.quiesce(); err != nil {
+				return vOut{ID: h.ID, R: "inconclusive", Note: fmt.Sprintf("probe: %v", err), Log: r.log}
+			}
+			for _, ch := range ret {
+				key := ch.Key()
+				if first, used := r.everUsed[key]; used {
+					what := "deleted"
+					if r.baseKeys[key] {
+						what = "pre-existing"
+					} else if _, live := r.prevMeta[key]; live {
+						what = "live"
+					}
+					r.report(step, "C15 KeysUnique key reused kind="+vKind(ch)+" previous="+what,
+						fmt.Sprintf("closing probe: new channel %q got key %d (lease %d, local %d) which was already assigned at step %d",
+							ch.Name, key, key.Leaseholder(), key.LocalKey(), first))
+				}
+			}
+		} else {
+			r.stats["probes-failed"]++
+		}
+	}
 	out.Stats = r.stats
 	out.Stats["steps"] = len(h.Steps)
 	for _, d := range r.diffs {
